@@ -190,7 +190,92 @@ theorem c03_acceptable (ip : Bool) (tag : Option Text) (vs : List Text) :
         have := hmax v hv pv this
         cases hc : cmp pv pl <;> simp_all
 
+/-! ### monotone in the history: a later fetch that only adds versions never lowers
+    the latest, and switching prereleases off never raises it -/
+
+/-- **Growth.**  If a later fetch leaves a superset of the version strings in the
+    cache, the new latest exists and is not SemVer-below the old one. -/
+theorem c03_grow_mono (ip : Bool) (vs ws : List Text) (hsub : ∀ v ∈ vs, v ∈ ws) (l : Text)
+    (h : getLatest ip none vs = some l) :
+    ∃ l' pl pl', getLatest ip none ws = some l' ∧ parseVersion l = some pl ∧
+      parseVersion l' = some pl' ∧ cmp pl pl' ≠ .gt := by
+  obtain ⟨hm, pl, hk, _⟩ := getLatest_spec h
+  cases h' : getLatest ip none ws with
+  | none =>
+    have := (c03_none_iff ip ws).mp h' l (hsub l hm)
+    rw [hk] at this; cases this
+  | some l' =>
+    obtain ⟨_, pl', hk', hmax'⟩ := getLatest_spec h'
+    exact ⟨l', pl, pl', rfl, (keepParsed_some hk).2.1, (keepParsed_some hk').2.1,
+      hmax' l (hsub l hm) pl hk⟩
+
+/-- appending a batch is the special case the refresh loop produces -/
+theorem c03_append_mono (ip : Bool) (vs extra : List Text) (l : Text)
+    (h : getLatest ip none vs = some l) :
+    ∃ l' pl pl', getLatest ip none (vs ++ extra) = some l' ∧ parseVersion l = some pl ∧
+      parseVersion l' = some pl' ∧ cmp pl pl' ≠ .gt :=
+  c03_grow_mono ip vs (vs ++ extra) (fun _ hv => List.mem_append_left _ hv) l h
+
+theorem keepParsed_true_imp {v : Text} {x : Text × Version} (h : keepParsed true v = some x) :
+    keepParsed false v = some x := by
+  unfold keepParsed at h ⊢
+  cases hp : parseVersion v with
+  | none => simp [hp] at h
+  | some p =>
+    simp only [hp] at h ⊢
+    split at h
+    · cases h
+    · simpa using h
+
+/-- **Setting.**  Ignoring prereleases can only lower (or keep) the answer: the
+    stable latest is never SemVer-above the latest computed with prereleases allowed. -/
+theorem c03_ignore_le (vs : List Text) (l : Text) (h : getLatest true none vs = some l) :
+    ∃ l' pl pl', getLatest false none vs = some l' ∧ parseVersion l = some pl ∧
+      parseVersion l' = some pl' ∧ cmp pl pl' ≠ .gt := by
+  obtain ⟨hm, pl, hk, _⟩ := getLatest_spec h
+  have hk0 := keepParsed_true_imp hk
+  cases h' : getLatest false none vs with
+  | none =>
+    have := (c03_none_iff false vs).mp h' l hm
+    rw [hk0] at this; cases this
+  | some l' =>
+    obtain ⟨_, pl', hk', hmax'⟩ := getLatest_spec h'
+    exact ⟨l', pl, pl', rfl, (keepParsed_some hk).2.1, (keepParsed_some hk').2.1,
+      hmax' l hm pl hk0⟩
+
+theorem filterMap_congr_mem {α β : Type} (f g : α → Option β) :
+    ∀ (l : List α), (∀ a ∈ l, f a = g a) → l.filterMap f = l.filterMap g
+  | [], _ => rfl
+  | a :: t, h => by
+    have ha : f a = g a := h a List.mem_cons_self
+    have ht := filterMap_congr_mem f g t (fun b hb => h b (List.mem_cons_of_mem _ hb))
+    simp only [List.filterMap_cons, ha, ht]
+
+/-- when the cache holds no prerelease at all, the setting makes no difference -/
+theorem c03_setting_irrelevant_on_stable (vs : List Text)
+    (hst : ∀ v ∈ vs, isPrerelease v = false) :
+    getLatest true none vs = getLatest false none vs := by
+  have hk : ∀ v ∈ vs, keepParsed true v = keepParsed false v := by
+    intro v hv
+    have := hst v hv
+    unfold isPrerelease at this
+    unfold keepParsed
+    cases hp : parseVersion v with
+    | none => rfl
+    | some p =>
+      rw [hp] at this
+      simp only at this ⊢
+      simp_all
+  have hf := filterMap_congr_mem (keepParsed true) (keepParsed false) vs hk
+  unfold getLatest
+  simp only
+  rw [hf]
+
 /-! ### non-vacuity: concrete caches -/
+example : ∃ l', getLatest true none (["1.0.0".toList] ++ ["0.9.0".toList, "1.2.0".toList]) = some l' ∧
+    l' = "1.2.0".toList := ⟨_, by decide, rfl⟩
+example : getLatest true none ["1.0.0".toList, "2.0.0-rc.1".toList] = some "1.0.0".toList ∧
+    getLatest false none ["1.0.0".toList, "2.0.0-rc.1".toList] = some "2.0.0-rc.1".toList := by decide
 example : getLatest true none ["1.0.0".toList, "2.0.0-beta.1".toList, "v1.5".toList] = some "v1.5".toList := by decide
 example : getLatest false none ["1.0.0".toList, "2.0.0-beta.1".toList, "v1.5".toList] = some "2.0.0-beta.1".toList := by decide
 example : getLatest true (some "0.9.0".toList) ["1.0.0".toList] = some "0.9.0".toList := by decide
